@@ -486,7 +486,9 @@ func parseValues(raw string) map[string]string {
 			for pos < len(body) && body[pos] != '|' {
 				pos++
 			}
-			pos++
+			if pos < len(body) {
+				pos++ // closing bar (absent when the solver output was cut off inside a quoted symbol)
+			}
 			return body[start:pos]
 		}
 		for pos < len(body) && !strings.ContainsRune(" \n\t\r()", rune(body[pos])) {
